@@ -370,6 +370,17 @@ package server
 //@ assigns sent(errCh), sent(resultChan), ribState, hookCount, spawned, s.curElecID, s.curMaster, s.cs[cid].params, s.cs[cid].setParams, s.cs[cid].lastElecID, nRecv, lastMulti, modCleanEnd, lastRecvEOF, resAtRecv, ribAtRecv, elecAtRecv, masterAtRecv, heldFor
 //@ props C09 C12:safety C11:lock C12:ensures#multi-field-rejected C12:ensures#multi-field-no-effect C12:ensures#other-sessions-untouched
 
+// Server.Modify$2: the writer side of Modify. Every response taken from the result channel is written to the client stream
+// before the next one is taken; a failed write ends the writer with exactly one INTERNAL verdict on the error channel.
+//@ unit Server.Modify$2
+//@ requires tagof(ms) != 0
+//@ loop 1 invariant streamSends == old(streamSends) + recvd(resultChan) - old(recvd(resultChan)) && len(sent(errCh)) == old(len(sent(errCh)))
+//@ ensures[every-response-written-or-failed] streamSends >= old(streamSends) + recvd(resultChan) - old(recvd(resultChan)) - 1
+//@ ensures[at-most-one-verdict] len(sent(errCh)) <= old(len(sent(errCh))) + 1
+//@ ensures[write-failure-is-internal] len(sent(errCh)) == old(len(sent(errCh))) + 1 ==> sent(errCh)[old(len(sent(errCh)))] != nil && errCode(sent(errCh)[old(len(sent(errCh)))]) == codes.Internal
+//@ assigns streamSends, sent(errCh), recvdAll
+//@ props C06 C09 C12:safety
+
 // Server.Get: the consumer side of Get. One producer (doGet) is started; every response taken from
 // the producer's message channel is written to the client stream exactly once before the next one
 // is taken; the RPC ends OK only if no producer error was received (and then every response that was
